@@ -212,8 +212,8 @@ PROPS.update({
 PROPS.update({
     "C17": dict(
         theorems=["products_fit", "strides_fit", "absurd_shapes_rejected", "flat_index_in_range", "pixy_guards", "kinship_guards", "theta_guards", "fst_guards", "dispatch_total",
-                  "hyper_guards", "individuals_guard", "writer_guards", "map_shape_guard"],
-        nontrivial=r"^(pncalc-|pnfold-|pnspec-|pnview-|pnany-\w+-err)",
+                  "hyper_guards", "individuals_guard", "writer_guards", "map_shape_guard", "input_rule"],
+        nontrivial=r"^(pncalc-|pnfold-|pnspec-|pnview-|pninput-|pnany-\w+-err)",
         rule="outcome classes {OK, ERR, PANIC}: the full grid statistic(14) x shapes with 1-4 axes of length 0..4 (all 780 shapes in thorough; 1-3 axes + a fifth of the 4-axis shapes in quick) in-process (each statistic separately, panics caught), a sample of it through `sfs stat` / `sfs fold --fill *` / `sfs view [-O npy]` on text inputs (zero-element spectra included), view option combinations on degenerate shapes, "
              "27 empty / 1-7 byte / header-only inputs x 5 invocations, 24 absurd declared shapes (2^32 x 2^32, zero-masked overflow, 2^64 +- 1, 300 / 22000 axes) x 12 invocations, 35 option values at and beyond their bounds (--precision 65535/65536/2^32/2^64, -p 2^63.., axis 2^64-1, delimiters), 29 contradictory sample lists / projections / thread counts for create, "
              "and a mutation stream of 2400 (thorough 50000) inputs (bit flips, byte edits, deletions, duplications, truncations, splices, huge numbers, separators) over text / npy spectra, VCF, raw BCF and BGZF payloads re-wrapped in valid blocks; where the model predicts the class it must match, elsewhere the run must end in OK or in a non-zero status with a diagnostic on stderr; "
